@@ -142,6 +142,15 @@ def run(rep):
         if 'raw' in maps and 'opt' in maps and maps['raw'] != maps['opt']:
             findings.append({'key': 'journal-raw-vs-opt', 'module': e['s'][:4000],
                              'what': 'the published theory/claims differ between optimise on and off'})
+    # "identical whether or not optimisation is on": a module that serialises in one setting and raises in the other publishes a
+    # theory in one of them only (small modules: the 256-slot limit of the memoiser is out of reach)
+    n_special = len(special)
+    for e in entries[:len(entries) - n_special]:
+        a, b = e.get('raw', ''), e.get('opt', '')
+        if a and b and a.startswith('(ok') != b.startswith('(ok'):
+            findings.append({'key': 'outcome-raw-vs-opt', 'module': e['s'][:4000], 'raw': a[:200], 'opt': b[:200], 'memo': e.get('memo', '')[:1500],
+                             'what': 'the module serialises with optimise %s but raises with optimise %s: the published theory is not identical whether or not optimisation is on'
+                                     % (('off', 'on') if a.startswith('(ok') else ('on', 'off'))})
     # encodability
     for (m, encodable), e in zip(special, entries[-len(special):]):
         for k in ('raw', 'opt'):
